@@ -11,6 +11,7 @@ import SedpackDriver.Version
 import SedpackDriver.ParMap
 import SedpackDriver.Codec
 import SedpackDriver.Writer
+import SedpackDriver.Reg
 open Lean
 namespace Sedpack.Drv
 
@@ -36,6 +37,7 @@ def dispatch (m : String) (j : Json) : Except String Json :=
   | "pmapfault" => pmapFaultJ j
   | "codec" => codecJ j
   | "writer" => writerJ j
+  | "reg" => regJ j
   | _ => .error s!"unknown model {m}"
 
 end Sedpack.Drv
